@@ -109,7 +109,8 @@ def handle (req : Sexp) : Sexp :=
     | none => bad "pretty"
   | .list [.atom "file-name", .str p] => optS ((fileName p.toList).map String.ofList)
   | .list [.atom "file-stem", .str n] => .str (String.ofList (fileStem n.toList))
-  | .list [.atom "with-extension-rs", .str p] => .str (String.ofList (withExtensionRs p.toList))
+  | .list [.atom "parent", .str p] => .str (String.ofList (parentOf p.toList))
+  | .list [.atom "with-file-name", .str p, .str n] => .str (String.ofList (withFileName p.toList n.toList))
   | .list [.atom "path-join", .str d, .str n] => .str (String.ofList (pathJoin d.toList n.toList))
   | .list [.atom "dest-path", dir, .str q] =>
     match Decode.optStr dir with
